@@ -348,8 +348,8 @@ def gen_test(rng, axis) -> str:
         return rng.choice(['any', 'any', 'q::k', 'q::j', 'q:P:k', 'node', 'ns:P', 'q::x'])
     if axis == 'namespace':
         return rng.choice(['any', 'q::p', 'q::xml', 'node', 'any'])
-    return rng.choice(['any'] * 7 + ['q::x'] * 5 + ['q::y'] * 3 + ['q::a', 'text', 'text', 'comment', 'pi', 'pi:pi',
-                       'q:P:x', 'ns:P', 'q::k'] + ['node'] * 4)
+    return rng.choice(['any'] * 10 + ['q::x'] * 5 + ['q::y'] * 3 + ['q::a', 'text', 'text', 'comment', 'pi', 'pi:pi',
+                       'q:P:x', 'ns:P', 'q::k'] + ['node'] * 7)
 
 
 AX_WEIGHTED = (['child'] * 6 + ['descendant'] * 3 + ['descendant-or-self'] * 2 + ['self'] * 2 + ['parent'] * 3 +
@@ -589,11 +589,11 @@ def choose_ctx(b: 'Built', c: dict) -> list[int]:
     rootctx = 1 if b.mode == 'dummy' else 0
     if is_absolute(c['expr']):
         return sorted({rootctx, rng.choice(allidx)})
-    if len(allidx) <= 14 or c.get('ctxseed') == -1 or count_kind(c['expr'], ('s', 'c', 'u')) <= 1:
+    if c.get('ctxseed') == -1 or count_kind(c['expr'], ('s', 'c', 'u')) <= 1 or (len(allidx) <= 14 and c.get('ctxseed', 0) % 3 == 0):
         return allidx
     elems = [i for i in allidx if b.recs[i][0] in 'ED']
     others = [i for i in allidx if b.recs[i][0] not in 'ED']
-    return sorted(set(rng.sample(elems, min(len(elems), 8)) + rng.sample(others, min(len(others), 5)) + [rootctx]))
+    return sorted(set(rng.sample(elems, min(len(elems), 8)) + rng.sample(others, min(len(others), 3)) + [rootctx]))
 
 
 def case_json(c):
@@ -648,7 +648,10 @@ def compare(run: Run, cases: list[dict], full: bool = True, lxml_check: bool = T
             run.disagree(Disagreement(cj, 'harness:context-nodes-missing', what='node-identity-map'))
             continue
         extra_ctx = set(ctxs[:1] + ctxs[len(ctxs) // 2:len(ctxs) // 2 + 1]) if full else set()
-        use_lxml = (lxml_check and c['lib'] == 'lxml' and c['mode'] == 'doc' and 'namespace' not in axes_of(c['expr']))
+        use_lxml = (lxml_check and c['lib'] == 'lxml' and c['mode'] == 'doc' and 'namespace' not in axes_of(c['expr'])
+                    # libxml2's preceding axis stops at the first child of the document node
+                    # (xmlXPathNextPrecedingInternal), wrong for nodes after the root element
+                    and not ('preceding' in axes_of(c['expr']) and b.post_objs))
         for i in ctxs:
             mv, sv, k = per[i]
             impl = it.select_tok(toks['1.0'], i)
@@ -778,7 +781,7 @@ COMBOS = [('et', 'dummy'), ('lxml', 'doc'), ('et', 'doc'), ('lxml', 'dummy'), ('
 
 def correspond(run: Run) -> None:
     rng = run.rng
-    ntrees = int(__import__('os').environ.get('C01_NTREES') or run.scale(330, 4000))
+    ntrees = int(__import__('os').environ.get('C01_NTREES') or run.scale(600, 5000))
     per_tree = run.scale(10, 14)
     cases = corpus_cases()
     for t in range(ntrees):
@@ -892,14 +895,14 @@ def search(run: Run):
     cases = []
     import time
     t0 = time.time()
-    budget = 240 if run.quick else 900
+    budget = 70 if run.quick else 600
     n = 0
     for ti, tree in enumerate(sorted(trees, key=lambda t: len(json.dumps(t)))):
         lib, mode = combos[ti % 3]
         for e in exprs:
             cases.append({'tree': tree, 'pre': [], 'post': [['C', 'cz']] if lib == 'lxml' else [], 'expr': e,
                           'lib': lib, 'mode': mode})
-        if len(cases) >= 3000:
+        if len(cases) >= 1500:
             compare(sub, cases, full=False, lxml_check=False)
             n += len(cases)
             cases = []
@@ -1025,7 +1028,7 @@ def body(run: Run) -> int:
                         'Element root without fragment flag: the dummy document is a virtual root that is not the parent of '
                         'the root element (elementpath API semantics, not W3C)',
                         'context.axis state machine abstracted: a step = axis iterator then node test on each yielded item']
-    run.prove(['EPV.Props.C01'], ['EPV.Spec.XPath1Paths'])
+    run.prove(['EPV.Props.C01'], ['EPV.Spec.XPath1Paths', 'EPV.Proto'])
     try:
         if getattr(run, 'replay', None):
             data = json.loads(Path(run.replay).read_text())
